@@ -19,6 +19,7 @@ func init() {
 			"D3 ascending and descending are mirror images: wherever a function orders things under opt.Ascending and under !opt.Ascending (if/else arms, '&&' alternatives, the ascending/descending cursor siblings), the sequences of comparisons agree with < and >, <= and >= exchanged. " +
 			"D4 the type of a merged iterator does not depend on the arrival order of the inputs: the reader of a remote answer without data (a placeholder that claims a typed iterator interface) is recognised by Iterators.dataType, while ClusterShardMapping.CreateIterator collects its inputs inside goroutines (found and fixed in 883e4b4). " +
 			"D5 a series is its name AND its tag set: every condition that compares both for one pair of subjects joins 'name differs' and 'tags differ' with ||, or 'equal' and 'equal' with && (13 sites); D6 every fan-out of the cluster mappings asks every remote shard group before it may return a result, unless the path established that there are none (shared with C05 D7). " +
+			"D7 the cache read concatenates the retained snapshot's entry before the live store's entry on every path (Values.Deduplicate keeps the last value of a timestamp, so the reverse order lets an older snapshot value override a newer acknowledged write while a snapshot is in flight or retained after a failed flush) (shared with C02/C09). " +
 			"NOT decided: window arithmetic, fill values, aggregate functions, limit/offset, equality of multi-shard and single-shard results.",
 		RuleText:    "obligation = (rule, function | struct field | site); struct-field coverage of codecs; marked path exploration + exhaustive evaluation of the compiled path conditions over all weak orderings; comparison-sequence mirror agreement",
 		Assumptions: commonAssumptions,
@@ -34,6 +35,7 @@ func runC11(c *core.Ctx) {
 	c.Clause("D4", func() { runMergeTypeOrderIndependent(c) })
 	c.Clause("D5", func() { runSeriesIdentityTests(c) })
 	c.Clause("D6", func() { runEveryRemoteGroupConsulted(c) })
+	c.Clause("D7", func() { runCacheReadOrder(c) })
 }
 
 // runSeriesIdentityTests: a series is identified by its name AND its tag set. Wherever one condition compares
